@@ -19,6 +19,10 @@ type Clause struct {
 	Text string
 	Expr ast.Expr
 	Tag  string // optional label  [name]
+	// AssumedOnly: an ensures added by `extern refine func pkg::Name` to the contract of a
+	// repo function (a ghost-event definition): assumed at call sites, not an obligation of
+	// the function itself; listed as an assumption.
+	AssumedOnly bool
 }
 
 type LoopSpec struct {
@@ -57,6 +61,7 @@ type Contract struct {
 	At         []AtAssert
 	Unreach    []int // block indices declared unreachable (cover guard)
 	AssumeNoPanic []string
+	Refine        bool // `extern refine func`: ensures to be appended to the base extern contract
 	AssumePure    []string // callees without contract assumed not to panic and to have no heap effect
 	Abstract   bool  // body translated with havoc tolerance; only listed obligations
 	Uses       map[string]bool
@@ -318,8 +323,20 @@ func ParseContractFile(path, defaultPkg string) ([]*Contract, error) {
 			pend = &pending{kw: "predbody", rest: strings.TrimSpace(rest[eq+1:]), line: ln}
 		case "extern":
 			// extern func NAME
+			// extern refine func NAME: additional ensures for an extern contract defined in
+			// another file (e.g. what a reflection-driven decoder guarantees for one
+			// destination type); merged into the base contract after loading
+			refine := false
+			if strings.HasPrefix(rest, "refine ") {
+				refine = true
+				rest = strings.TrimSpace(strings.TrimPrefix(rest, "refine"))
+			}
 			r := strings.TrimSpace(strings.TrimPrefix(rest, "func"))
-			cur = &Contract{Pkg: pkg, Name: r, Extern: true, Trusted: true, Loops: map[int]*LoopSpec{}, Uses: map[string]bool{}, File: path, Line: ln}
+			cur = &Contract{Pkg: pkg, Name: r, Extern: true, Trusted: true, Refine: refine, Loops: map[int]*LoopSpec{}, Uses: map[string]bool{}, File: path, Line: ln}
+			if i := strings.Index(r, "::"); refine && i > 0 {
+				// refinement of a repo function's contract, named by its contract key
+				cur.Pkg, cur.Name, cur.Extern = r[:i], r[i+2:], false
+			}
 			out = append(out, cur)
 		case "func":
 			cur = &Contract{Pkg: pkg, Name: rest, Loops: map[int]*LoopSpec{}, Uses: map[string]bool{}, File: path, Line: ln}
@@ -530,8 +547,13 @@ func (c *Contract) addClause(kw, rest, path string, line int) error {
 // LoadContracts gathers contracts for the given repo package dirs and extern dir.
 func LoadContracts(repo string, pkgDirs map[string]string, externDir string) (map[string]*Contract, error) {
 	out := map[string]*Contract{}
+	var refines []*Contract
 	add := func(cs []*Contract) error {
 		for _, c := range cs {
+			if c.Refine {
+				refines = append(refines, c)
+				continue
+			}
 			key := c.Key()
 			if prev, dup := out[key]; dup {
 				// identical pred/global macros may be repeated across files of one package;
@@ -567,6 +589,45 @@ func LoadContracts(repo string, pkgDirs map[string]string, externDir string) (ma
 		if err := add(cs); err != nil {
 			return nil, err
 		}
+	}
+	for _, r := range refines {
+		base := out[r.Key()]
+		if base != nil && (len(r.Requires) > 0 || r.ModAll) {
+			contractWarnings = append(contractWarnings, fmt.Sprintf("%s:%d: extern refine of %s may only add ensures (and modifies ghost.<relation>)", r.File, r.Line, r.Name))
+			continue
+		}
+		if base == nil {
+			if r.Extern {
+				contractWarnings = append(contractWarnings, fmt.Sprintf("%s:%d: extern refine of %s: no extern contract with that name", r.File, r.Line, r.Name))
+				continue
+			}
+			// a repo function without a contract of its own: the refinement is its (assumed)
+			// contract when its package is loaded, and is ignored otherwise
+			out[r.Key()] = r
+			continue
+		}
+		// merged into an existing contract: only ghost relations may be added to its frame
+		// (the standalone form above is a complete assumed contract and states its own frame)
+		var mods []Clause
+		for _, m := range r.Modifies {
+			for _, part := range splitTop(m.Text, ",") {
+				part = strings.TrimSpace(part)
+				if !strings.HasPrefix(part, "ghost.") {
+					continue
+				}
+				if cl, err := mkClause(part, r.File, r.Line); err == nil {
+					mods = append(mods, cl)
+				}
+			}
+		}
+		r.Modifies = mods
+		for _, e := range r.Ensures {
+			if !base.Extern {
+				e.AssumedOnly = true
+			}
+			base.Ensures = append(base.Ensures, e)
+		}
+		base.Modifies = append(base.Modifies, r.Modifies...)
 	}
 	return out, nil
 }
